@@ -49,7 +49,13 @@ class Recorder:
         for s in sorted(self.objs):
             o = self.objs[s]
             pi = self.slot_pi.get(s, self.pi)
-            rec = {"c": to_json(pi(o)), "oid": self.oid(o)}
+            try:
+                c = to_json(pi(o))
+            except BudgetExceeded:
+                raise
+            except Exception as e:  # the object cannot be read through its public attributes any more
+                c = {"k": "Unobservable", "e": [0, 1], "why": "%s: %s" % (type(e).__name__, str(e)[:80])}
+            rec = {"c": c, "oid": self.oid(o)}
             if self.prev.get(s) != rec:
                 ch.append({"s": s, "v": rec})
         dropped = [s for s in self.prev if s not in self.objs]
@@ -76,7 +82,7 @@ class Recorder:
         # ---- prepare: concretise the arguments (harness code: errors here are machinery errors)
         arg = {}
         if kind in ("Fill", "FillNoW", "Increment"):
-            arg["x"] = B.datum(op["x"], self.g)
+            arg["x"] = B.datum(op["x"], self.g, op.get("rec"))
             if kind == "Fill":
                 arg["w"] = to_float(op["w"])
         elif kind == "FillNumpy":
